@@ -1,11 +1,13 @@
-import SimplicityModel.Env
+import SimplicityModel.EnvDigest
 import SimplicityModel.Driver.Util
 /-! driver verb of C15:
 `env <version> <lock> <ix> <annex-arg> <cmr> <genesis> <cb0> <key> <path> <nin> <nutxo> <nout>
  {in …}* {utxo …}* {out …}* {Q <jet> <arg>*}+`
 → per `Q` group one token per argument (the compact bits of `jetC q (cBuild (marshal e))` or `fail`),
-groups separated by `|`.  Parsing is trusted glue; the answers come from `Env.jetC`, `Env.cBuild`,
-`Env.marshal`, the definitions `Props/C15.lean` is about. -/
+groups separated by `|`.  A digest jet (`…_hash`, `transaction_id`, `issuance_entropy/asset/token`) is
+answered by `jetD q (cBuildD (marshalD e))`; the digests are computed once per line and only when a
+digest jet is asked.  Parsing is trusted glue; the answers come from `Env.jetC`, `Env.cBuild`,
+`Env.marshal`, `Env.jetD`, `Env.cDigests`, `Env.txidOf`, the definitions `Props/C15.lean` is about. -/
 namespace Drv.C15
 open Env
 
@@ -208,21 +210,74 @@ def groups : List String → List (List String) → List (List String)
   | t :: r, g :: acc => groups r ((t :: g) :: acc)
   | _ :: r, [] => groups r []
 
-def answerGroup (v : TxEnv) (g : List String) : Option String :=
+/-- digest jet name → how its arguments become digest queries -/
+inductive DKind where
+  | nullary (g : D0) | input (g : DIn) | outputHash
+
+def dkind? (name : String) : Option DKind :=
+  match name with
+  | "output_amounts_hash" => some (.nullary .outputAmountsHash)
+  | "output_nonces_hash" => some (.nullary .outputNoncesHash)
+  | "output_scripts_hash" => some (.nullary .outputScriptsHash)
+  | "output_range_proofs_hash" => some (.nullary .outputRangeProofsHash)
+  | "output_surjection_proofs_hash" => some (.nullary .outputSurjectionProofsHash)
+  | "outputs_hash" => some (.nullary .outputsHash)
+  | "input_outpoints_hash" => some (.nullary .inputOutpointsHash)
+  | "input_amounts_hash" => some (.nullary .inputAmountsHash)
+  | "input_scripts_hash" => some (.nullary .inputScriptsHash)
+  | "input_utxos_hash" => some (.nullary .inputUtxosHash)
+  | "input_sequences_hash" => some (.nullary .inputSequencesHash)
+  | "input_annexes_hash" => some (.nullary .inputAnnexesHash)
+  | "input_script_sigs_hash" => some (.nullary .inputScriptSigsHash)
+  | "inputs_hash" => some (.nullary .inputsHash)
+  | "issuance_asset_amounts_hash" => some (.nullary .issuanceAssetAmountsHash)
+  | "issuance_token_amounts_hash" => some (.nullary .issuanceTokenAmountsHash)
+  | "issuance_range_proofs_hash" => some (.nullary .issuanceRangeProofsHash)
+  | "issuance_blinding_entropy_hash" => some (.nullary .issuanceBlindingEntropyHash)
+  | "issuances_hash" => some (.nullary .issuancesHash)
+  | "tx_hash" => some (.nullary .txHash)
+  | "tapleaf_hash" => some (.nullary .tapleafHash)
+  | "tappath_hash" => some (.nullary .tappathHash)
+  | "tap_env_hash" => some (.nullary .tapEnvHash)
+  | "sig_all_hash" => some (.nullary .sigAllHash)
+  | "transaction_id" => some (.nullary .transactionId)
+  | "input_hash" => some (.input .inputHash)
+  | "input_utxo_hash" => some (.input .inputUtxoHash)
+  | "issuance_hash" => some (.input .issuanceHash)
+  | "issuance_entropy" => some (.input .issuanceEntropy)
+  | "issuance_asset" => some (.input .issuanceAsset)
+  | "issuance_token" => some (.input .issuanceToken)
+  | "output_hash" => some .outputHash
+  | _ => none
+
+def dquery? (k : DKind) (arg : String) : Option DQuery :=
+  match k with
+  | .nullary g => some (.nullary g)
+  | .input g => arg.toNat?.map fun i => .input g (UInt32.ofNat i)
+  | .outputHash => arg.toNat?.map fun i => .outputHash (UInt32.ofNat i)
+
+def answerGroup (v : TxEnv) (vd : Thunk TxEnvD) (g : List String) : Option String :=
   match g with
   | [] => none
-  | name :: args => do
-    let k ← kind? name
+  | name :: args =>
     let args := if args.isEmpty then [""] else args
-    let qs ← args.mapM (query? k)
-    pure (" ".intercalate (qs.map fun q => showAns (jetC q v)))
+    match dkind? name with
+    | some dk => do
+      let qs ← args.mapM (dquery? dk)
+      pure (" ".intercalate (qs.map fun q => showAns (jetD q vd.get)))
+    | none => do
+      let k ← kind? name
+      let qs ← args.mapM (query? k)
+      pure (" ".intercalate (qs.map fun q => showAns (jetC q v)))
 
 def handle (ts : List String) : String :=
   match envArgs.run ts with
   | none => "bad-op"
   | some (e, rest) =>
     let v := cBuild (marshal e)
-    match (groups rest []).mapM (answerGroup v) with
+    -- `cBuildD (marshalD e)`, sharing the built environment
+    let vd : Thunk TxEnvD := Thunk.mk fun _ => cDigests v (marshalD e).txid
+    match (groups rest []).mapM (answerGroup v vd) with
     | some l => if l.isEmpty then "bad-op" else " | ".intercalate l
     | none => "bad-op"
 
